@@ -1,5 +1,5 @@
 (* Proofs for Model/Gauge.v (C19). *)
-From Comdex Require Import Lib.Base Lib.DecArith Lib.DecFacts Lib.DecFacts3 Lib.F64 Model.Gauge.
+From Comdex Require Import Lib.Base Lib.DecArith Lib.DecFacts Lib.DecFacts2 Lib.DecFacts3 Lib.F64 Model.Gauge.
 From Coq Require Import ZifyBool.
 
 (* ---------------- split ---------------- *)
@@ -800,4 +800,108 @@ Proof.
           Begin 10 (mkBenv [FarmErr] [] [mkXenv 6000000 [(11,1000000,0);(12,1000000,0);(13,1000000,0);(14,1000000,0);(15,1000000,0);(16,1000000,0)]]);
           Begin 86401 (mkBenv [FarmErr] [] [mkXenv 6000000 [(11,1000000,0);(12,1000000,0);(13,1000000,0);(14,1000000,0);(15,1000000,0);(16,1000000,0)]])], 5.
   vm_compute. repeat split.
+Qed.
+
+(* ---------------- when a program cannot overdraw ---------------- *)
+(* one owner: f * 10^36 * total <= er * (10^18 * net + total) + 10^18/2 * total *)
+Lemma ext_final_bound kind avail dleft total net f : ext_final kind avail dleft total net = Ok f ->
+  0 <= net -> 0 < total -> 0 <= avail -> 0 < dleft ->
+  let er := dquo (dec_of_int avail) (dec_of_int dleft) in
+  0 <= er /\ er * dleft <= avail * P18 + dleft /\
+  f * P36 * total <= er * (P18 * net + total) + HALF18 * total.
+Proof.
+  unfold ext_final. intros E Hn Ht Ha Hd.
+  destruct (int64_c net) as [n|] eqn:E1; [|discriminate].
+  destruct (if kind =? 0 then int64_c total else Some total) as [t|] eqn:E2; [|discriminate].
+  destruct (int64_c avail) as [a|] eqn:E3; [|discriminate].
+  assert (n = net) by (unfold int64_c in E1; destruct (_ && _); congruence).
+  assert (t = total) by (destruct (kind =? 0); [unfold int64_c in E2; destruct (_ && _); congruence|congruence]).
+  assert (a = avail) by (unfold int64_c in E3; destruct (_ && _); congruence). subst n t a.
+  destruct (Z.eqb_spec total 0); [discriminate|]. injection E as <-. cbv zeta.
+  pose proof (dquo_ints_bounds net total Hn Ht) as [S0 S1]. cbv zeta in S0, S1.
+  pose proof (dquo_ints_bounds avail dleft Ha Hd) as [R0 R1]. cbv zeta in R0, R1.
+  set (share := dquo (dec_of_int net) (dec_of_int total)) in *.
+  set (er := dquo (dec_of_int avail) (dec_of_int dleft)) in *.
+  pose proof (dmul_bounds share er) as Bm. pose proof (dmul_nonneg share er S0 R0) as Nm.
+  pose proof (dtrunc_int_bounds (dmul share er) Nm) as [T0 T1].
+  set (f := dtrunc_int (dmul share er)) in *. dec_consts. pose proof P36_eq as E36.
+  split; [assumption|]. split; [lia|].
+  assert (F1 : f * P36 <= share * er + HALF18) by (rewrite E36; nia).
+  assert (F2 : share * total * er <= (net * P18 + total) * er) by (apply Z.mul_le_mono_nonneg_r; lia).
+  nia.
+Qed.
+
+Lemma ext_loop_bound x now total : forall pop bal tr b t ps,
+  ext_loop x now total pop bal tr = Ok (b, t, ps) ->
+  Forall (fun u => 0 <= snd (fst u)) pop -> 0 < total -> 0 <= x_avail x -> 0 < x_days x - x_count x ->
+  let er := dquo (dec_of_int (x_avail x)) (dec_of_int (x_days x - x_count x)) in
+  tr <= t /\ (t - tr) * P36 * total <= er * (P18 * pop_net pop + zlen pop * total) + zlen pop * HALF18 * total.
+Proof.
+  intros pop. induction pop as [|[[a net] created] rest IH]; intros bal tr b t ps E Hnn Ht Ha Hd; cbn [ext_loop] in E.
+  - injection E as <- <- <-. cbn. unfold pop_net, zlen. cbn. lia.
+  - inversion Hnn as [|? ? Hn Hrest]; subst. cbn [fst snd] in Hn. cbv zeta.
+    set (er := dquo (dec_of_int (x_avail x)) (dec_of_int (x_days x - x_count x))).
+    assert (Hl : zlen ((a, net, created) :: rest) = zlen rest + 1) by (unfold zlen; cbn [length]; lia).
+    assert (Hp : pop_net ((a, net, created) :: rest) = net + pop_net rest) by reflexivity.
+    assert (Hl0 : 0 <= zlen rest) by (unfold zlen; lia).
+    assert (R0 : 0 <= er).
+    { unfold er. apply dquo_nonneg; unfold dec_of_int; dec_consts; nia. }
+    dec_consts.
+    assert (Skip : forall tr', ext_loop x now total rest bal tr' = Ok (b, t, ps) -> tr' = tr ->
+              tr <= t /\ (t - tr) * P36 * total <= er * (P18 * pop_net ((a, net, created) :: rest) + zlen ((a, net, created) :: rest) * total)
+                                            + zlen ((a, net, created) :: rest) * HALF18 * total).
+    { intros tr' E' ->. destruct (IH _ _ _ _ _ E' Hrest Ht Ha Hd) as [I1 I2]. fold er in I2. split; [assumption|].
+      rewrite Hl, Hp. nia. }
+    destruct (negb (x_count x =? x_days x - 1) && (now - created <? x_minlock x)); [apply (Skip tr E eq_refl)|].
+    destruct (ext_final (x_kind x) (x_avail x) (x_days x - x_count x) total net) as [f| |] eqn:Ef; try discriminate.
+    destruct (Z.ltb_spec 0 f); [|apply (Skip tr E eq_refl)].
+    pose proof (ext_final_bound _ _ _ _ _ _ Ef Hn Ht Ha Hd) as (_ & _ & F). fold er in F.
+    set (p := if f <=? bal then (bal - f, f) else (bal, 0)) in E. destruct p as [bal1 got].
+    destruct (ext_loop x now total rest bal1 (tr + f)) as [[[b1 t1] ps1]| |] eqn:Er; try discriminate.
+    injection E as <- <- <-. destruct (IH _ _ _ _ _ Er Hrest Ht Ha Hd) as [I1 I2]. fold er in I2.
+    split; [lia|]. rewrite Hl, Hp. nia.
+Qed.
+
+Lemma P18_ge_1000 : 1000 <= P18. Proof. vm_compute. discriminate. Qed.
+
+Lemma ext_safe_no_overdraw now e x : ext_safe e x = true -> kf_C19_3 now e x = false.
+Proof.
+  unfold ext_safe. intros H. repeat (apply andb_true_iff in H; destruct H as [H ?]).
+  apply Z.leb_le in H. rename H into Ha.
+  assert (Hnn : Forall (fun u => 0 <= snd (fst u)) (xe_pop e)).
+  { apply Forall_forall. intros u Hu. rewrite forallb_forall in H4. specialize (H4 u Hu). lia. }
+  unfold kf_C19_3, ext_tick.
+  destruct (negb (x_active x)); [lia|]. destruct (negb (x_next x <? now)); [lia|].
+  destruct (Z.ltb_spec (x_count x) (x_days x)); [|cbn; lia].
+  destruct (ext_loop x now (xe_total e) (xe_pop e) 0 0) as [[[b t] ps]| |] eqn:El; try reflexivity.
+  cbn [x_avail]. apply Z.ltb_ge.
+  pose proof (ext_loop_bound _ _ _ _ _ _ _ _ _ El Hnn ltac:(lia) Ha ltac:(lia)) as [B0 B1]. cbv zeta in B1.
+  set (D := x_days x - x_count x) in *. set (A := x_avail x) in *. set (k := zlen (xe_pop e)) in *.
+  set (T := xe_total e) in *. set (S := pop_net (xe_pop e)) in *.
+  assert (HD : 1 <= D) by (unfold D; lia).
+  pose proof (dquo_ints_bounds A D Ha ltac:(lia)) as [R0 R1]. cbv zeta in R0, R1.
+  set (er := dquo (dec_of_int A) (dec_of_int D)) in *.
+  assert (Hk : 0 <= k) by (unfold k, zlen; lia).
+  assert (HT : 0 < T) by lia. assert (HS : S <= T) by lia.
+  assert (K0 : 4 * k * A <= P18) by lia. assert (K0' : 4 * k <= P18) by lia.
+  clearbody D A k T S er. clear - B0 B1 HD R0 R1 Hk HT HS K0 K0' Ha.
+  dec_consts. pose proof P36_eq as E36. pose proof P18_ge_1000 as Hp. rewrite E36 in *.
+  set (p := P18) in *. set (h := HALF18) in *. clearbody p h.
+  assert (M1 : er * S <= er * T) by (apply Z.mul_le_mono_nonneg_l; lia).
+  assert (M2 : er * p * S <= er * p * T) by (replace (er * p * S) with (p * (er * S)) by ring; replace (er * p * T) with (p * (er * T)) by ring; apply Z.mul_le_mono_nonneg_l; lia).
+  assert (C1 : t * (p * p) * T <= (er * (p + k) + k * h) * T) by lia.
+  assert (C2 : t * (p * p) <= er * (p + k) + k * h) by (apply (Z.mul_le_mono_pos_r _ _ T); assumption).
+  assert (M3 : er * D * (p + k) <= (A * p + D) * (p + k)) by (apply Z.mul_le_mono_nonneg_r; lia).
+  assert (M4 : t * (p * p) * D <= (er * (p + k) + k * h) * D) by (apply Z.mul_le_mono_nonneg_r; lia).
+  assert (C3 : t * (p * p) * D <= (A * p + D) * (p + k) + k * h * D) by lia.
+  destruct (Z.le_gt_cases t A) as [|Hgt]; [lia|exfalso].
+  assert (C4 : (A + 1) * (p * p * D) <= t * (p * p * D)) by (apply Z.mul_le_mono_nonneg_r; nia).
+  assert (F1 : 4 * k * A * p <= p * p) by (apply Z.mul_le_mono_nonneg_r; lia).
+  assert (F2 : 4 * k * p * D <= p * p * D) by (apply Z.mul_le_mono_nonneg_r; [lia|]; apply Z.mul_le_mono_nonneg_r; lia).
+  assert (F3 : 4 * k * D <= p * D) by (apply Z.mul_le_mono_nonneg_r; lia).
+  assert (F4 : A * (p * p) * 1 <= A * (p * p) * D) by (apply Z.mul_le_mono_nonneg_l; nia).
+  assert (F5 : 1000 * (D * p) <= p * (D * p)) by (apply Z.mul_le_mono_nonneg_r; nia).
+  assert (F6 : p * p * 1 <= p * p * D) by (apply Z.mul_le_mono_nonneg_l; nia).
+  assert (F7 : k * h * D * 2 = k * p * D) by (subst p; ring_simplify; lia).
+  lia.
 Qed.
